@@ -109,7 +109,7 @@ def register_both_side(reg):
             "implies(result[1] != 'Both', 'Q' in diff_dict)",
         ],
         modifies=[],
-        props=["C08"])
+        props=["C07", "C08"])
 
 
 def register_both_side_fit(reg):
@@ -119,7 +119,7 @@ def register_both_side_fit(reg):
         FB, "BothSideReact.filter_list_by_indices", params={"data": List(COMP), "indices": List(INT)}, returns=List(COMP), fresh_result=True,
         requires=["forall(range(0, len(indices)), lambda a: 0 <= indices[a] and indices[a] < len(data))"],
         ensures=["len(result) == len(indices)", "forall(range(0, len(indices)), lambda a: result[a] is data[indices[a]])"],
-        modifies=[], props=["C08"])
+        modifies=[], props=["C07", "C08"])
     U0 = "old(self.unbalance[j])"
     # what the index comprehension established: the strictly increasing positions of the 'Both' rows (nothing has been written yet)
     BI = [
@@ -179,4 +179,4 @@ def register_both_side_fit(reg):
         modifies=["self.diff_formula", "self.unbalance"],
         locals_types={"both_index": List(INT), "react_dict_both": List(COMP), "product_dict_both": List(COMP), "diff_dict": List(COMP),
                       "diff_dict_both": List(COMP), "unbalance_both": List(STR)},
-        props=["C08"])
+        props=["C07", "C08"])
